@@ -507,7 +507,7 @@ func (sc *DecArshal) Run(t *core.Tape, env *Env) (any, []core.Violation) {
 	if sim.NShort+sim.NEmpty+sim.NErr > 0 {
 		st.Nontrivial = true
 	}
-	st.SigAdd(0xa5, uint64(p.Target), hashBytes([]byte(p.Route)), uint64(bitsLen(sim.MaxAsk)), uint64(sim.NErr), uint64(bitsLen(len(in))))
+	st.SigAdd(0xa5, uint64(p.Target), hashBytes([]byte(p.Route)), uint64(bitsLen(sim.MaxAsk)), uint64(sim.NErr), uint64(bitsLen(len(in))), hashBytes(in), uint64(p.Noop))
 	for _, c := range p.Read.Cuts {
 		st.SigAdd(uint64(byteClass(in, c)), uint64(bitsLen(c)))
 	}
